@@ -2,7 +2,7 @@ use crate::{
     ast::{AstInfo, AstInfoTraverser, Reference},
     error::{ErrorMessage, ParseErrorMessage, ParserError, ParserErrorKind},
     parser::{IResult, Parser},
-    tokens::{Token, TokenChange, TokenStream},
+    tokens::{Token, TokenChange, TokenStream, TokenType},
     Shiftable, ToRange,
 };
 use nom::{
@@ -10,7 +10,7 @@ use nom::{
     combinator::map,
     multi::many0,
     sequence::preceded,
-    {InputTake, Offset},
+    {InputLength, InputTake, Offset},
 };
 use std::ops::Range;
 
@@ -343,8 +343,17 @@ where
             if input.location_offset() - input.reference_pos != this.to_range().start {
                 return affected_error(input);
             }
-            // TODO: maybe dynamic affection range
-            let affected_range = this_range.start..(this_range.end + 1);
+            // The token behind this node decides where it ends.
+            // Comments in between belong to that token, so they are part of the look-ahead.
+            let trailing_comments = if this_range.len() <= input.input_len() {
+                input[this_range.len()..]
+                    .iter()
+                    .take_while(|token| matches!(token.token_type, TokenType::Comment(_)))
+                    .count()
+            } else {
+                0
+            };
+            let affected_range = this_range.start..(this_range.end + 1 + trailing_comments);
             if input.token_change.overlaps(&affected_range) {
                 match inner_parser.parse(input) {
                     Ok(result) => Ok(result),
